@@ -41,11 +41,13 @@ class StressMode(vlib.Mode):
 
     def run_impl(self, impl_exe, cases, tier):
         outs = vlib.run_cases_isolating([impl_exe, "stress"], cases, timeout=600, env=vlib.GOENV, chunk=1)
-        if tier == "thorough":
+        if True:
+            # the race detector is the dynamic oracle for "every access is synchronised": the first windows are repeated under a -race build
+            # (quick tier: two windows; thorough: six)
             ok, log, race_exe = vlib.build_harness(race=True)
             if not ok:
                 return outs + []   # race build unavailable: plain build only (noted by the evidence counters)
-            for i, c in enumerate(cases[:6]):
+            for i, c in enumerate(cases[:(6 if tier == "thorough" else 2)]):
                 try:
                     p = subprocess.run([race_exe, "stress"], input=("reset\n" + c[0] + "\n").encode(), stdout=subprocess.PIPE,
                                        stderr=subprocess.PIPE, timeout=300, env=dict(vlib.GOENV, GORACE="halt_on_error=0"))
